@@ -172,7 +172,7 @@ func runCase(phase string, i int) worker.Result {
 	// The injected 404 is only meaningful once the capability is known: while it is unknown the
 	// client legitimately reads a 404 as "Referrers API unsupported" and falls back to the tag
 	// schema (a registry that answers 200 and then 404 for the same API does not follow the spec).
-	faultReferrers := remote && !freshRepo && rng.IntN(3) == 0
+	faultReferrers := remote && !freshRepo && rng.IntN(2) == 0
 
 	// ---- expected closure on generator truth
 	type item struct{ n, d int }
@@ -461,7 +461,7 @@ func runCase(phase string, i int) worker.Result {
 	}
 	faultHit := false
 	if faultReferrers && sh.Reg != nil {
-		nth := 2 + rng.IntN(3)
+		nth := 1 + rng.IntN(4) // the first lookup (of the start node) included
 		seen := 0
 		isReferrersReq := func(rec *regmodel.Record) bool {
 			if rec.Method != "GET" {
